@@ -141,17 +141,18 @@ sexp sexp_thread_terminate (sexp ctx, sexp self, sexp_sint_t n, sexp thread) {
   sexp_assert_type(ctx, sexp_contextp, SEXP_CONTEXT, thread);
   /* terminate the thread and all children */
   for ( ; thread && sexp_contextp(thread); thread=sexp_context_child(thread)) {
+    /* unblock the thread if needed so it can be scheduled and terminated */
+    /* (before marking it: starting a thread resets its error status)     */
+    if (sexp_delete_list(ctx, SEXP_G_THREADS_PAUSED, thread))
+      sexp_thread_start(ctx, self, 1, thread);
     /* if not already terminated set an exception status */
-    if (sexp_context_refuel(ctx) > 0) {
+    if (sexp_context_refuel(thread) > 0) {
       sexp_context_errorp(thread) = 1;
       sexp_context_result(thread) =
         sexp_global(ctx, SEXP_G_THREAD_TERMINATE_ERROR);
       /* zero the refuel - this tells the scheduler the thread is terminated */
       sexp_context_refuel(thread) = 0;
     }
-    /* unblock the thread if needed so it can be scheduled and terminated */
-    if (sexp_delete_list(ctx, SEXP_G_THREADS_PAUSED, thread))
-      sexp_thread_start(ctx, self, 1, thread);
   }
   /* return true if terminating self, then we can yield */
   return res;
